@@ -278,6 +278,7 @@ var laneBoundary = []byte{0x00, 0x01, 0x02, 0x7e, 0x7f, 0x80, 0x81, 0xfe, 0xff}
 
 func TestC10(t *testing.T) {
 	stats.Property = "C10"
+	replayRegressions(t, "C10")
 	stats.Rule = "(a) closure: breadth-first enumeration of every reachable state (size class + raw key area + fill count) of a bare node under add/remove of the bytes {00,01,7f,80,fe,ff} (covers node4, growth to node16, shrink back with stale lanes, merge); " +
 		"(b) 4-lane primitives: searchNode4 on all 9^4 lane words over boundary bytes x all 256 probes plus generated words, insertPosNode4's effective position on every word with 0..4 sorted boundary lanes and zero / duplicated-tail unoccupied lanes x every unregistered byte; (c) 16-lane primitives: generated lane arrays (sorted occupied part, arbitrary bytes in unoccupied lanes) x every fill 0..16 x all 256 probes against a scalar scan; " +
 		"(d) rapid add/remove sequences and sweeps across node48/node256 with all 256 probes, both enumeration orders, extremes and the fill counter checked after every step; " +
